@@ -272,6 +272,7 @@ func genSimdAsm(load func(string) *pkgInfo) (string, error) {
 	var b strings.Builder
 	fmt.Fprintf(&b, "/-- z/simd/%s, routine `%s` ($0-%d), labels resolved to instruction indices -/\n", asmFile, asmFunc, argBytes)
 	b.WriteString("def searchProg : Array RV.X86.Instr := #[\n")
+	var leanIns []string
 	for i, in := range prog {
 		var txt string
 		switch {
@@ -286,6 +287,7 @@ func genSimdAsm(load func(string) *pkgInfo) (string, error) {
 		default:
 			txt = fmt.Sprintf("%s %s %s", asmCtor[in.mn], in.ops[0].lean, in.ops[1].lean)
 		}
+		leanIns = append(leanIns, txt)
 		sep := ","
 		if i == len(prog)-1 {
 			sep = ""
@@ -293,6 +295,11 @@ func genSimdAsm(load func(string) *pkgInfo) (string, error) {
 		fmt.Fprintf(&b, "  /- %2d -/ %s%s  -- %s\n", i, txt, sep, strings.Join(strings.Fields(in.src), " "))
 	}
 	b.WriteString("]\n\n")
+	// one fetch lemma per instruction (proved by evaluation), for symbolic execution in proofs
+	for i := range prog {
+		fmt.Fprintf(&b, "theorem at_%d : searchProg[%d]? = some (%s) := rfl\n", i, i, leanIns[i])
+	}
+	fmt.Fprintf(&b, "theorem searchProg_size : searchProg.size = %d := rfl\n\n", len(prog))
 	b.WriteString("/-- label table of the routine -/\ndef searchLabels : List (String × Nat) := [")
 	for i, l := range labelOrder {
 		if i > 0 {
